@@ -67,26 +67,32 @@ impl FromStr for PEP440 {
             .captures(s)
             .ok_or_else(|| ZervError::InvalidVersion(format!("Invalid PEP440 version: {s}")))?;
 
-        let release = captures
-            .name("release")
-            .map(|m| {
-                m.as_str()
-                    .split('.')
-                    .map(|x| x.parse().unwrap_or(0))
-                    .collect()
-            })
-            .unwrap_or_else(|| vec![0]);
+        // A number that does not fit must be rejected, not replaced by 0
+        let out_of_range =
+            |n: &str| ZervError::InvalidVersion(format!("Number out of range in PEP440 version: {n}"));
+        let parse_number = |m: regex::Match| -> Result<u32, ZervError> {
+            m.as_str().parse().map_err(|_| out_of_range(m.as_str()))
+        };
+
+        let release = match captures.name("release") {
+            Some(m) => m
+                .as_str()
+                .split('.')
+                .map(|x| x.parse().map_err(|_| out_of_range(x)))
+                .collect::<Result<Vec<u32>, ZervError>>()?,
+            None => vec![0],
+        };
 
         let mut version = PEP440::new(release);
 
         if let Some(epoch_match) = captures.name("epoch") {
-            let epoch = epoch_match.as_str().parse().unwrap_or(0);
+            let epoch = parse_number(epoch_match)?;
             version = version.with_epoch(epoch);
         }
 
         if let Some(pre_l) = captures.name("pre_l") {
             let label = PreReleaseLabel::from_str_or_alpha(pre_l.as_str());
-            let number = captures.name("pre_n").and_then(|m| m.as_str().parse().ok());
+            let number = captures.name("pre_n").map(parse_number).transpose()?;
             version = version.with_pre_release(label, number);
         }
 
@@ -94,16 +100,22 @@ impl FromStr for PEP440 {
             let post_number = captures
                 .name("post_n1")
                 .or_else(|| captures.name("post_n2"))
-                .and_then(|m| m.as_str().parse().ok());
+                .map(parse_number)
+                .transpose()?;
             version = version.with_post(post_number);
         }
 
         if captures.name("dev").is_some() {
-            let dev_number = captures.name("dev_n").and_then(|m| m.as_str().parse().ok());
+            let dev_number = captures.name("dev_n").map(parse_number).transpose()?;
             version = version.with_dev(dev_number);
         }
 
         if let Some(local_match) = captures.name("local") {
+            if let Some(part) = local_match.as_str().split(['-', '_', '.']).find(|part| {
+                part.chars().all(|c| c.is_ascii_digit()) && part.parse::<u32>().is_err()
+            }) {
+                return Err(out_of_range(part));
+            }
             version = version.with_local(local_match.as_str());
         }
 
